@@ -5,6 +5,7 @@ import (
 	"fmt"
 	"os"
 	"runtime/debug"
+	"time"
 )
 
 // Work is the worker entry point: vh worker <prop> <batch.json> <out.jsonl> <scratch>
@@ -30,6 +31,16 @@ func Work(id, batchFile, outFile, scratch string) int {
 		return 2
 	}
 	defer out.Close()
+	// a worker must not outlive its driver (an interrupted run would otherwise leave spinning orphans)
+	ppid := os.Getppid()
+	go func() {
+		for {
+			time.Sleep(2 * time.Second)
+			if os.Getppid() != ppid {
+				os.Exit(4)
+			}
+		}
+	}()
 	for _, c := range cases {
 		fmt.Fprintf(out, "START %s\n", c.ID)
 		x := NewCtx(c, out, scratch)
